@@ -1298,6 +1298,27 @@ mod ir_builder {
                     ))
                 }));
 
+            // A block argument may be used in a block that is printed before the block defining
+            // it (e.g. a `while_break` block using a value that `mem2reg` turned into an argument
+            // of a later loop block). Make every block argument with a function-wide unique name
+            // known up front; names reused by several blocks keep resolving block by block.
+            let mut arg_name_count: HashMap<&str, usize> = HashMap::new();
+            for block in &fn_decl.blocks {
+                for (_, _, name, _) in &block.args {
+                    *arg_name_count.entry(name.as_str()).or_default() += 1;
+                }
+            }
+            for block in &fn_decl.blocks {
+                for (idx, (_, _, name, _)) in block.args.iter().enumerate() {
+                    if arg_name_count[name.as_str()] == 1 {
+                        arg_map.insert(
+                            name.clone(),
+                            named_blocks[&block.label].get_arg(context, idx).unwrap(),
+                        );
+                    }
+                }
+            }
+
             for block in fn_decl.blocks {
                 for (idx, (_, _, name, _)) in block.args.iter().enumerate() {
                     arg_map.insert(
